@@ -105,12 +105,21 @@ class Sim(object):
         return ('return', r)
 
 
-def simulate(cfg, sibling=False):
+def simulate(cfg, sibling=False, catchall=False):
     """Returns dict(trace=[...], outcome=('return'|'raise', obj), status=int) for a request that hits the route
-    (sibling=True: for a plain route without own middlewares bound after it in the same application)."""
+    (sibling=True: for a plain route without own middlewares bound after it in the same application;
+    catchall=True: for the serving application's built-in catch-all route - only the serving application's own
+    middlewares apply; its leaf appears in the trace as 'sib')."""
+    if catchall:
+        sibling = True
     if sibling:
         import copy
         cfg = copy.deepcopy(cfg)
+        if catchall:
+            serving = 'outer' if (cfg.get('embedded') or any(m['level'] == 'outer' for m in cfg['mws'])) else 'app'
+            for m in cfg['mws']:
+                if m['level'] != serving:
+                    m['level'] = 'route'      # does not apply to the serving application's catch-all route
         keep = [i for i, m in enumerate(cfg['mws']) if m['level'] != 'route']
         for i, m in enumerate(cfg['mws']):
             if i not in keep:
